@@ -22,7 +22,7 @@ CLAUSES = {
             "nullable_tagged_field_with_non_null_default", "array_element_may_encode_to_zero_bytes",
             "duplicate_tag", "duplicate_field_name", "reader_or_writer_cannot_be_derived",
             "flexibility_flag_is_not_a_boolean", "unknown_entity_type"},
-    "C14": {"class_version_differs_from_module_path", "class_entity_type_differs_from_module_path",
+    "C14": {"nested_entity_from_other_module", "class_version_differs_from_module_path", "class_entity_type_differs_from_module_path",
             "module_without_entity_class", "module_must_have_exactly_one_top_level_class",
             "flexibility_differs_within_module", "api_key_differs_within_module",
             "header_schema_differs_within_module", "module_path_malformed",
